@@ -248,6 +248,7 @@ per_rule(const struct rg_rule_s *g, void *clo)
 		if (an.allday && (g->freq >= RF_HOURLY || has_timepart(g))) {
 			continue;
 		}
+		vd_beat();
 		/* derive a synchronised DTSTART: the first member at or after the anchor */
 		n = rf_eval(&g->ref, an, rf_secs(an) + rg_window(g->freq), first, 1, &ambig, &trunc);
 		if (!n) {
